@@ -264,7 +264,11 @@ static void build_channel(void)
 	memset(&CH, 0, sizeof(CH));
 	memset(&DATA, 0, sizeof(DATA));
 	CH.magic = EXT2_ET_MAGIC_IO_CHANNEL;
+#ifdef CFG_BS
+	CH.block_size = CFG_BS;		/* a constant for the symbolic executor, not only an assumption */
+#else
 	CH.block_size = IN.block_size;
+#endif
 	CH.flags = IN.channel_flags;
 	CH.private_data = &DATA;
 	CH.write_error = 0;		/* assumption: no write-error handler installed */
